@@ -1,7 +1,7 @@
 use super::{IResult, LocatedSpan};
 use nom::branch::alt;
 use nom::bytes::complete::tag_no_case;
-use nom::combinator::map;
+use nom::combinator::{fail, map};
 use strum::{EnumIter, EnumString, EnumVariantNames};
 
 /// The available 6502 instructions.
@@ -73,6 +73,12 @@ macro_rules! parse_mnemonic {
 }
 
 pub(super) fn implied_mnemonic(input: LocatedSpan) -> IResult<Mnemonic> {
+    // A mnemonic is three ASCII letters. `tag_no_case` compares character by character and then cuts the input at the
+    // byte length of the tag: 'br' followed by the Kelvin sign (three bytes that lowercase to 'k') would be cut inside
+    // that character.
+    if !input.fragment().is_char_boundary(3.min(input.fragment().len())) {
+        return fail(input);
+    }
     alt((
         alt((
             parse_mnemonic!("asl", Mnemonic::Asl),
